@@ -20,6 +20,7 @@ def x1_pair(ctx):
     f = rule_body(ctx, 'from_unixtime')
     ctx.fn(f)
     n = 0
+    zones = set()
     for v, inner, conds in result_alternatives(f):
         if v != 'Ok':
             continue
@@ -32,11 +33,18 @@ def x1_pair(ctx):
             ctx.ok('X1', 'from_unixtime: instant = from_timestamp(N as i64, 0)', 'use-def', site=f.loc)
         else:
             ctx.finding('X1', 'from_unixtime/instant', "'N to date' builds its instant as %s; expected from_timestamp(N as i64, 0) with nothing in between" % val[:160], site=f.loc)
-        zone = render(inner[2][1])
-        if not (zone == 'SmartCalcConfig::get_time_offset(config)' or re.match(r'types::TimeOffset::TimeOffset\{str::to_uppercase\(tools::get_timezone\(', zone) or 'get_timezone' in zone):
-            ctx.finding('X1', 'from_unixtime/zone', 'the display zone of the result is %s' % zone[:100], site=f.loc)
-    if n < 2:
-        raise AnchorLost('from_unixtime: expected the default-zone and the explicit-zone result, found %d' % n)
+        for za, _c in alternatives(f, inner[2][1], _conds=conds):
+            zone = render(za)
+            if zone == 'SmartCalcConfig::get_time_offset(config)':
+                zones.add('default')
+            elif re.match(r'types::TimeOffset::TimeOffset\{str::to_uppercase\(tools::get_timezone\(', zone) or 'get_timezone' in zone:
+                zones.add('explicit')
+            else:
+                ctx.finding('X1', 'from_unixtime/zone', 'the display zone of the result is %s' % zone[:100], site=f.loc)
+    if n < 1 or zones != {'default', 'explicit'}:
+        raise AnchorLost('from_unixtime: expected a result in the configured zone and one in the explicitly requested zone, found %s' % sorted(zones))
+    for z in sorted(zones):
+        ctx.ok('X1', 'from_unixtime: the %s zone only labels the instant' % z, 'gamma', site=f.loc)
     t = rule_body(ctx, 'to_unixtime')
     ctx.fn(t)
     seen = set()
